@@ -79,6 +79,7 @@ class Engine(ExprMixin, CallMixin):
         self.spec_types = {}
         self.user_order = user_order or {}
         self.attr_models = {}
+        self.dict_records = set()  # Rec types that model dicts with a fixed universe of optional string keys
         self.nullable_sorts = set()  # opaque sorts whose values may be Python's None
         self.callable_sorts = {}
         self.isinstance_static = {}
